@@ -1011,6 +1011,10 @@ class Executor:
             return z3.BoolVal(False)
         if isinstance(l, PyConst) and isinstance(r, PyConst):
             return z3.BoolVal(l.v == r.v)
+        if isinstance(l, PyConst) and isinstance(l.v, str) and isinstance(r, Val) and r.t == Str:
+            return z3.StringVal(l.v) == r.z
+        if isinstance(r, PyConst) and isinstance(r.v, str) and isinstance(l, Val) and l.t == Str:
+            return l.z == z3.StringVal(r.v)
         if isinstance(l, Val) and isinstance(r, Val):
             if l.t == r.t:
                 if l.t == NoneT:
